@@ -439,6 +439,21 @@ Proof.
   induction S; cbn [map]; constructor; assumption.
 Qed.
 
+(* every genuine item is still there with its original mnemonic, unit, value, description *)
+Theorem junk_fields_frame ig lines lines' acc r r' :
+  junk_ins lines lines' ->
+  parse_body v k c ig cc tr lines acc = POk r ->
+  parse_body v k c ig cc tr lines' acc = POk r' ->
+  forall it, In it r ->
+  exists it', In it' r' /\ i_orig it' = i_orig it /\ i_unit it' = i_unit it /\
+              i_value it' = i_value it /\ i_descr it' = i_descr it.
+Proof.
+  intros J H H' it Hin. pose proof (junk_genuine_subsequence ig lines lines' acc r r' J H H') as S.
+  assert (Hm : In (meta it) (map meta r')) by (apply (subseq_In _ _ _ S), in_map; exact Hin).
+  apply in_map_iff in Hm as (it' & E & Hin'). exists it'. split; [exact Hin'|].
+  unfold meta in E. injection E as E1 E2 E3 E4. auto.
+Qed.
+
 (* with the flag both parses succeed, so the statement needs no hypothesis on the results *)
 Corollary junk_genuine_subsequence_flag lines lines' acc :
   junk_ins lines lines' ->
